@@ -50,11 +50,17 @@ func init() {
 	register("C15", "S-chk T-ver", nil, rule{name: "S-chk", run: ruleSChk}, rule{name: "T-ver", run: ruleTVer}, rule{name: "T-tmpl", run: func(c *Ctx) { ruleTTmplOnly(c, map[string]bool{"IsP2PKH": true}) }}, rule{name: "S-carry", run: ruleSCarry}, rule{name: "W-addr", run: ruleWAddr})
 	register("C19", "O-fresh S-arg S-nobr S-order S-fan", nil, rule{name: "O-fresh", run: ruleOFreshState}, rule{name: "S-arg", run: ruleSDebugArg}, rule{name: "S-nobr", run: ruleSNoBranch}, rule{name: "S-order", run: ruleSOrder}, rule{name: "S-fan", run: ruleSFan})
 	register("C12", "S-fund G-map O-pure", nil, rule{name: "S-fund", run: ruleSFund}, rule{name: "G-map", run: ruleGMapFromUTXOs}, rule{name: "G-lin", run: ruleGDeficit}, rule{name: "G-sum", run: ruleGSum})
-	register("C11", "G-size G-fee G-pred P-est T-tmpl G-sum", nil, rule{name: "G-size", run: ruleGSize}, rule{name: "G-fee", run: ruleGFee}, rule{name: "G-pred", run: ruleGPred}, rule{name: "P-est", run: rulePEst}, rule{name: "G-clone", run: ruleGClone}, rule{name: "G-sum", run: ruleGSum}, rule{name: "T-tmpl", run: func(c *Ctx) { ruleTTmplOnly(c, map[string]bool{"IsData": true, "IsP2PKH": true, "IsP2PKHInscription": true}) }})
+	register("C11", "G-size G-fee G-pred P-est T-tmpl G-sum", nil, rule{name: "G-size", run: ruleGSize}, rule{name: "G-fee", run: ruleGFee}, rule{name: "G-fee", run: ruleGQuote}, rule{name: "G-pred", run: ruleGPred}, rule{name: "P-est", run: rulePEst}, rule{name: "G-clone", run: ruleGClone}, rule{name: "G-sum", run: ruleGSum}, rule{name: "T-tmpl", run: func(c *Ctx) {
+		ruleTTmplOnly(c, map[string]bool{"IsData": true, "IsP2PKH": true, "IsP2PKHInscription": true})
+	}})
 	register("C10", "G-chg S-chg O-pure G-sum G-size T-vi", nil, rule{name: "G-chg", run: ruleGChg}, rule{name: "S-chg", run: ruleSChgWrappers}, rule{name: "G-sum", run: ruleGSum}, rule{name: "G-size", run: ruleGSize}, rule{name: "P-est", run: rulePEst}, rule{name: "T-vi", run: func(c *Ctx) { ruleTViOnly(c, map[string]bool{"Length": true, "UpperLimitInc": true}) }})
 	register("C06", "T-enc G-legacy S-sub S-enc S-false S-nullf", nil, rule{name: "T-enc", run: ruleTEnc}, rule{name: "G-legacy", run: ruleGLegacy}, rule{name: "S-sub", run: ruleSSub}, rule{name: "S-enc", run: ruleSEncOrder}, rule{name: "S-multi", run: ruleSMulti}, rule{name: "S-reset", run: ruleSReset}, rule{name: "G-clone", run: ruleGClone})
 	register("C04", "S-flag W-unlock S-fill S-digest S-apply T-shf", nil, rule{name: "S-flag", run: ruleSFlag}, rule{name: "S-digest", run: ruleSDigest}, rule{name: "S-apply", run: ruleSApply}, rule{name: "T-shf", run: ruleTShf}, rule{name: "S-sub", run: ruleSSub}, rule{name: "T-enc", run: ruleTEnc}, rule{name: "G-clone", run: ruleGClone})
 	register("C20", "G-idx G-fifo S-fee W-insc O-insc T-rt", nil, rule{name: "G-idx", run: ruleGIdx}, rule{name: "S-fee", run: ruleSFeeAfter}, rule{name: "W-insc", run: ruleWInsc}, rule{name: "O-insc", run: ruleOInsc}, rule{name: "T-rt", run: ruleTRt})
 	register("C02", "W-sig", nil, rule{name: "W-sig", run: ruleWSig}, rule{name: "S-err", run: func(c *Ctx) { ruleSErrPreimage(c, "CalcInputPreimage") }}, rule{name: "O-pure", run: func(c *Ctx) { ruleOPureSighashFor(c, true) }})
-	register("C03", "W-leg", nil, rule{name: "W-leg", run: ruleWLeg}, rule{name: "G-eff", run: ruleGEffLegacy}, rule{name: "S-err", run: func(c *Ctx) { ruleSErrPreimage(c, "CalcInputPreimageLegacy") }}, rule{name: "O-pure", run: func(c *Ctx) { ruleOPureSighashFor(c, false) }}, rule{name: "G-clone", run: ruleGClone})
+	register("C03", "W-leg", nil, rule{name: "W-leg", run: ruleWLeg}, rule{name: "G-eff", run: ruleGEffLegacy}, rule{name: "S-dig", run: func(c *Ctx) {
+		if sh := c.P.Func("", "*Tx", "CalcInputSignatureHash"); sh != nil {
+			digestRule(c, sh)
+		}
+	}}, rule{name: "S-err", run: func(c *Ctx) { ruleSErrPreimage(c, "CalcInputPreimageLegacy") }}, rule{name: "O-pure", run: func(c *Ctx) { ruleOPureSighashFor(c, false) }}, rule{name: "G-clone", run: ruleGClone})
 }
